@@ -209,6 +209,8 @@ class SymStr:
                     return i
                 w = self._cw(self.cells[i])
                 if p < idx < p + w:
+                    if self._explode(i):
+                        return self._bound(idx, default)
                     raise Escape('slice boundary %d inside a formatted number' % idx)
                 p += w
             return n
@@ -216,11 +218,22 @@ class SymStr:
         for i in range(n - 1, -1, -1):
             w = self._cw(self.cells[i])
             if p + w > -idx and p < -idx:
+                if self._explode(i):
+                    return self._bound(idx, default)
                 raise Escape('slice boundary %d inside a formatted number' % idx)
             p += w
             if p == -idx:
                 return i
         return 0
+
+    def _explode(self, i):
+        """replace the integer token at cell i by its decimal digits (fresh symbolic digit characters tied to the value by
+        value = sum d_k 10^k, no leading zero): needed when fixed-column code cuts through a printed integer"""
+        cells = explode_int_token(self.cells[i])
+        if cells is None:
+            return False
+        self.cells = self.cells[:i] + tuple(cells) + self.cells[i + 1:]
+        return True
 
     def __getitem__(self, k):
         if isinstance(k, Sym):
@@ -587,6 +600,40 @@ class SymStr:
         return parse_float_cells(cells)
 
 
+_explode_count = [0]
+
+
+def explode_int_token(t):
+    """digit cells of a non-negative integer token printed without padding ('{}', '{:d}', str(n)); None if not applicable"""
+    if not isinstance(t, Tok) or not isinstance(t.val, Sym) or t.val.e.sort != 'I':
+        return None
+    spec = t.spec or ''
+    if spec not in ('', 'd', 'str', 'r', '%d', '%i'):
+        return None
+    from .proxy import _decide
+    ex = getattr(_decide[0], '__self__', None)
+    ctx = getattr(ex, 'ctx', None)
+    if ctx is None:
+        return None
+    if bool(t.val < 0):
+        return None
+    w = tok_length(t)
+    if not isinstance(w, int):
+        return None
+    # name by the value term so that re-executions create the same variables
+    base = 'digits(%d)' % t.val.e.uid
+    ds = []
+    total = 0
+    for k in range(w):
+        d = ctx.int('%s.%d' % (base, k), 48, 57)
+        ds.append(d)
+        total = total * 10 + (d - 48)
+    ctx.assume(total == t.val)
+    if w > 1:
+        ctx.assume(ds[0] > 48)
+    return ds
+
+
 def _int_token_vs_digits(a, b):
     """'{:0Wd}'.format(n) compared with a run of character cells: equal iff the run is exactly the
     zero-padded decimal spelling of n"""
@@ -791,7 +838,8 @@ def parse_float_cells(cells):
         if ne == 0:
             raise ValueError('could not convert string to float')
         if isinstance(ev, Sym):
-            raise Escape('symbolic exponent digits in a float literal')
+            from .proxy import enumerate_int
+            ev = enumerate_int(ev)          # one path per value of the exponent
         exp10 = esign * ev
     if i != n:
         raise ValueError('could not convert string to float')
